@@ -7,7 +7,8 @@
 //! Case:   `mac.<kind> <plain|static> <tok>…`   kind = ubig | ibig | fbig | dbig | rbig
 //!         tok = `L:<literal>` | `I:<ident>` | `P:<punct char>` | `G:<literal>` (a parenthesised group)
 //! Answer: `ok <path> <value…> rt:<value…|err|none>` or `reject rt:<…>`
-//!   path  = const | bytes | static | parts(<p>,<p>)            (which code generator was used)
+//!   path  = const | bytes | static | heap (ratio built by from_parts at run time; how its two parts
+//!           are spelled is not observable through the value and not promised)
 //!   value = int: hex; float: `<signif> d:<exp> d:<prec>`; ratio: `<num>/<den>:<R|X>`
 //!   rt    = what the run-time parser says about the same text (concatenated tokens; `base N` =
 //!           from_str_radix; fbig: one leading `_` after the sign is macro-only syntax)
@@ -409,6 +410,29 @@ impl Interp {
     }
 
     fn expr(&mut self, toks: &[Tok], env: &HashMap<String, V>) -> R<V> {
+        // `<expr> . into ()`: UBig -> IBig is the only conversion an expansion can mean here
+        if toks.len() >= 4 {
+            if let [Tok::P('.'), Tok::Id(m), Tok::G(Delimiter::Parenthesis, a)] = &toks[toks.len() - 3..] {
+                if m == "into" && a.is_empty() {
+                    return match self.expr(&toks[..toks.len() - 3], env)? {
+                        V::U(x, p) => Ok(V::I(IBig::from(x), p)),
+                        V::I(x, p) => Ok(V::I(x, p)),
+                        _ => Err("`.into()` on something that is not an integer".into()),
+                    };
+                }
+            }
+        }
+        // `( <expr> )` and `<expr> as <type>`: parentheses and numeric casts do not change what is denoted
+        if let [Tok::G(Delimiter::Parenthesis, inner)] = toks {
+            return self.expr(inner, env);
+        }
+        if toks.len() >= 3 {
+            if let Some(k) = toks.iter().rposition(|t| matches!(t, Tok::Id(s) if s == "as")) {
+                if k > 0 && toks[k + 1..].iter().all(|t| matches!(t, Tok::Id(_) | Tok::P(':'))) && !toks[k + 1..].is_empty() {
+                    return self.expr(&toks[..k], env);
+                }
+            }
+        }
         let mut c = Cur { t: toks, i: 0 };
         match c.peek() {
             None => Err("empty expression".into()),
@@ -553,8 +577,8 @@ impl Interp {
             // ---- rationals
             ("RBig", "from_parts_const", [V::Sign(s), V::Num(n), V::Num(d)]) if ns_ok("dashu_ratio") => Ok(V::Q(RBig::from_parts_const(*s, *n as DoubleWord, *d as DoubleWord), "const".into())),
             ("Relaxed", "from_parts_const", [V::Sign(s), V::Num(n), V::Num(d)]) if ns_ok("dashu_ratio") => Ok(V::X(Relaxed::from_parts_const(*s, *n as DoubleWord, *d as DoubleWord), "const".into())),
-            ("RBig", "from_parts", [V::I(n, p1), V::U(d, p2)]) if ns_ok("dashu_ratio") => Ok(V::Q(RBig::from_parts(n.clone(), d.clone()), format!("parts({},{})", p1, p2))),
-            ("Relaxed", "from_parts", [V::I(n, p1), V::U(d, p2)]) if ns_ok("dashu_ratio") => Ok(V::X(Relaxed::from_parts(n.clone(), d.clone()), format!("parts({},{})", p1, p2))),
+            ("RBig", "from_parts", [V::I(n, p1), V::U(d, p2)]) if ns_ok("dashu_ratio") => Ok(V::Q(RBig::from_parts(n.clone(), d.clone()), { let _ = (p1, p2); "heap".to_string() })),
+            ("Relaxed", "from_parts", [V::I(n, p1), V::U(d, p2)]) if ns_ok("dashu_ratio") => Ok(V::X(Relaxed::from_parts(n.clone(), d.clone()), { let _ = (p1, p2); "heap".to_string() })),
             ("Relaxed", "from_static_words", [V::Sign(s), V::Words(n), V::Words(d)]) if ns_ok("dashu_ratio") => {
                 let (nw, _) = self.static_words(n)?;
                 let (dw, _) = self.static_words(d)?;
